@@ -3,7 +3,8 @@
    bs is the block size (any positive value; the generated 2 MB constant is one instance).
 
    Not proved here (covered by the differential run and the monitor only, see checks/C14.json):
-   the streaming validator theorems (validator_language, truncation_rejected), the
+   the rejecting direction of the streaming validator (validator_language "only if",
+   truncation_rejected, flipped streams), the
    general header round trip (unmarshal (marshal h) = h; concrete instances below), the
    checksum half of recorded_size_and_checksum_match (GetV2PayloadChecksum = recorded sum). *)
 From DB Require Import Base.Bytes Base.CRC32 Gen.GenC14 Model.SnapshotHeader Model.BlockFile
@@ -68,6 +69,30 @@ Theorem shrunk_is_loadable_empty : forall bs, (0 < bs)%nat ->
   [OData empty_lru_session; OEof []].
 Proof. exact shrunk_body_reads_proved. Qed.
 Print Assumptions shrunk_is_loadable_empty.
+
+(* the streaming validator (v2validator.AddChunk loop + Validate) is independent of how the
+   block region is cut into chunks: for EVERY chunking the result is Validate applied to
+   the concatenation. bs >= 12 is what the 2*(bs+4) look-ahead of AddChunk needs (the tail
+   is 16 bytes); the generated block size is 2 MB. *)
+Theorem validator_chunking_independent : forall bs chunks, (12 <= bs)%nat -> forall Y T,
+  vv_run bs (mkV2V Y T) chunks =
+  vv_validate bs (mkV2V (Y ++ concat chunks) (T + nlen (concat chunks))).
+Proof. exact vv_run_chunking_independent. Qed.
+Print Assumptions validator_chunking_independent.
+
+(* ... and it accepts what the writer produces: every payload (every length: 0, around
+   and at multiples of bs, bs-16, ...), every cut of the block region into chunks *)
+Theorem validator_accepts_writer_output : forall bs p chunks, (12 <= bs)%nat ->
+  nlen (file_body bs p) < 2 ^ 64 -> concat chunks = file_body bs p ->
+  vv_run bs (mkV2V [] 0) chunks = true.
+Proof. exact validator_accepts_writer_output_proved. Qed.
+Print Assumptions validator_accepts_writer_output.
+
+(* SnapshotValidator after the header chunk (chunk ids > 0) is that v2 validator *)
+Theorem validator_stream_after_header : forall bs chunks s id, id <> 0 ->
+  sv_run bs (V2 s) id chunks = if vv_run bs s chunks then Accept else Reject.
+Proof. exact sv_run_v2_proved. Qed.
+Print Assumptions validator_stream_after_header.
 
 (* ---- non-vacuity and the file level (header included), concrete instances ---- *)
 
